@@ -144,16 +144,18 @@ class filler_mctc:
         cs = filler_child_size(old, a.size, top, bottom)
         mv = calls("move_cursor_to_coords")
         inside = both(top <= a.row, a.row < maxrow - bottom)
-        if not W.hasattr(None, cur(), w, "move_cursor_to_coords"):
+        # statement: succeeds exactly when the wrapped widget accepts the translated cell, and then the cursor
+        # is on the requested row -- so a row in the filler's own padding is rejected whatever the child is
+        if not inside:
+            yield "row-outside-child-rejected", both(len(mv) == 0, result == False)  # noqa: E712
+        elif not W.hasattr(None, cur(), w, "move_cursor_to_coords"):
             yield "no-cursor-protocol", both(len(mv) == 0, result == True)  # noqa: E712
-        elif inside:
+        else:
             yield "forwarded-once", len(mv) == 1
             if mv:
                 v = mv[0][3]
                 yield "translated-cell", both(eq(v["size"], cs), v["col"] == a.col, v["row"] == a.row - top)
                 yield "succeeds-iff-child-accepts", eq(result, mv[0][4])
-        else:
-            yield "row-outside-child-rejected", both(len(mv) == 0, result == False)  # noqa: E712
 
 
 @contract(FI + "Filler.keypress", property=("C09", "C08"), inline=INL, replayable=False)
